@@ -7,14 +7,19 @@ What is carried (DESIGN 2.3): for every class deriving from ``BaseTransform``
     sibling method they call, translated from the *array branch* of the method body
     (``isinstance(x, Number)`` selects the scalar branch, which is emitted as ``<m>_scalar``),
   * ``<m>_raises`` : the condition under which the method body raises,
-  * the finite ends of ``_domain`` / ``_codomain``;
+  * the finite ends of ``_domain`` / ``_codomain`` and both intervals with their infinite ends
+    (``domainExt`` / ``codomainExt`` over ``ExtVal K``; for ``InverseRTransform`` the swap of the
+    wrapped transform's two intervals),
+  * static helpers (``BeckeRTransform.find_parameter``): straight-line code over one array argument
+    (``array.size``, ``array[<integer expression>]``, ``//`` and ``%`` on Python integers, an
+    ``if <integer>: v = e else: v = e'`` selection) -> a definition in ``Option`` (``none`` = IndexError);
 for ``BaseTransform`` itself a record of the abstract methods, ``deriv_inverse``,
 ``deriv2_inverse``, ``deriv3_inverse`` and ``_convert_inf``.
 
 The vocabulary is deliberately small: straight-line code (``Assign``, ``AugAssign``,
 ``Return``, ``With`` around it, ``if <guard>: raise``, ``if self.<flag>: v = ...``),
 arithmetic ``+ - * / **`` (literal natural exponent -> ``npow``, anything else -> ``Elem.rpow``),
-``np.log/exp/sqrt/power/ones/zeros/array/size/sign/isinf/any``, calls of sibling methods.
+``np.log/exp/sqrt/power/ones/zeros/array/float64(<literal>)/size/sign/isinf/any``, calls of sibling methods.
 Anything else raises ``Untranslatable`` (reported by the runner as a broken obligation).
 
 Every number, sign, operator and operand order of the generated text comes from the AST;
@@ -134,6 +139,7 @@ class ClassInfo:
         self.b_optional = False
         self.out = {}              # method -> dict(value, raises, scalar, uses_size, exc)
         self.order = []
+        self.static = {}           # static helper -> dict(params, kinds, value, raises, exc, src)
 
 
 class MethodTranslator:
@@ -244,6 +250,9 @@ class MethodTranslator:
             if name == "zeros" and len(args) == 1 and self.size_arg(args[0]):
                 return lit(0), P_ATOM
             if name == "array" and len(args) == 1 and isinstance(args[0], ast.Constant):
+                return lit(args[0].value, node), P_ATOM
+            if name in ("float64", "double") and len(args) == 1 and isinstance(args[0], ast.Constant):
+                # np.float64(1): the literal as a NumPy double (so that a Python-float operand follows IEEE rules) = the literal in K
                 return lit(args[0].value, node), P_ATOM
             if name == "size" and len(args) == 1 and isinstance(args[0], ast.Name) and args[0].id in self.params:
                 # np.size(x): number of elements of the argument (1 for a scalar), same quantity as x.size
@@ -472,6 +481,124 @@ class MethodTranslator:
         return items
 
 
+class StaticTranslator(MethodTranslator):
+    """A static helper over one array argument and scalar arguments -> a definition in `Option K`.
+
+    Statements carried: `if <scalar comparison>: raise ValueError`, `name = array.size` (a Python integer),
+    `name = <scalar expression>`, `if <integer expression>: v = e  else: v = e'` (truthiness of a Python integer;
+    both branches assign the same single name), `return <scalar expression>`.  Scalar expressions may index the
+    array with an integer expression (`array[size // 2 - 1]`): `pyIndex`, Python semantics (negative indices count
+    from the end, out of range = IndexError = `none`).  Integer expressions: literals, integer locals, `array.size`,
+    `len(array)`, `+ - * // %` (`Int.fdiv` / `Int.fmod`: Python's floor division and modulus)."""
+
+    def __init__(self, mod, cls, fn):
+        super().__init__(mod, cls, fn, "array")
+        if not self.static:
+            raise Untranslatable(f"{cls.name}.{fn.name}: not a static method")
+        self.kinds = {}
+        for a in fn.args.args:
+            ann = ast.unparse(a.annotation) if a.annotation else None
+            if ann in ("np.ndarray", "numpy.ndarray"):
+                self.kinds[a.arg] = "array"
+            elif ann in ("float", "int", None):
+                self.kinds[a.arg] = "K"
+            else:
+                raise Untranslatable(f"{cls.name}.{fn.name}: argument {a.arg}: {ann}")
+        if list(self.kinds.values()).count("array") != 1 or self.defaults:
+            raise Untranslatable(f"{cls.name}.{fn.name}: expected exactly one array argument and no defaults")
+        self.intlocals = set()
+        self.locals = {p for p, k in self.kinds.items() if k == "K"}
+
+    def is_array(self, node):
+        return isinstance(node, ast.Name) and self.kinds.get(node.id) == "array"
+
+    # integer expressions
+    def itr(self, node):
+        if isinstance(node, ast.Constant) and isinstance(node.value, int) and not isinstance(node.value, bool) and node.value >= 0:
+            return f"({node.value} : Int)", P_ATOM
+        if isinstance(node, ast.Name) and node.id in self.intlocals:
+            return _ident(node.id), P_ATOM
+        if isinstance(node, ast.Attribute) and node.attr == "size" and self.is_array(node.value):
+            return f"({_ident(node.value.id)}.length : Int)", P_ATOM
+        if (isinstance(node, ast.Call) and isinstance(node.func, ast.Name) and node.func.id == "len" and len(node.args) == 1
+                and not node.keywords and self.is_array(node.args[0])):
+            return f"({_ident(node.args[0].id)}.length : Int)", P_ATOM
+        if isinstance(node, ast.BinOp):
+            if isinstance(node.op, (ast.FloorDiv, ast.Mod)):
+                f = "Int.fdiv" if isinstance(node.op, ast.FloorDiv) else "Int.fmod"
+                return f"{f} {self.par(self.itr(node.left), P_ATOM)} {self.par(self.itr(node.right), P_ATOM)}", 90
+            table = {ast.Add: ("+", P_ADD), ast.Sub: ("-", P_ADD), ast.Mult: ("*", P_MUL)}
+            for k, (sym, p) in table.items():
+                if isinstance(node.op, k):
+                    return f"{self.par(self.itr(node.left), p)} {sym} {self.par(self.itr(node.right), p + 1)}", p
+        raise Untranslatable(f"{self.cls.name}.{self.fn.name}: integer expression {ast.unparse(node)!r} ({_where(node)})")
+
+    def is_int_expr(self, node):
+        try:
+            self.itr(node)
+            return True
+        except Untranslatable:
+            return False
+
+    def tr(self, node):
+        if isinstance(node, ast.Subscript) and self.is_array(node.value):
+            idx = self.par(self.itr(node.slice), P_ATOM)
+            return f"(← pyIndex {_ident(node.value.id)} {idx})", P_ATOM
+        if isinstance(node, ast.Name) and (node.id in self.intlocals or self.kinds.get(node.id) == "array"):
+            raise Untranslatable(f"{self.cls.name}.{self.fn.name}: {node.id!r} used as a number ({_where(node)})")
+        return super().tr(node)
+
+    def run_static(self):
+        who = f"{self.cls.name}.{self.fn.name}"
+        lines, guards, returned = [], [], False
+        body = _strip_doc(self.fn.body)
+        for st in body:
+            if returned:
+                raise Untranslatable(f"{who}: code after return")
+            if isinstance(st, ast.If) and not st.orelse and len(_strip_doc(st.body)) == 1 and isinstance(st.body[0], ast.Raise):
+                if lines:
+                    raise Untranslatable(f"{who}: raise guard after the first assignment ({_where(st)})")
+                exc = st.body[0].exc
+                name = exc.func.id if isinstance(exc, ast.Call) and isinstance(exc.func, ast.Name) else None
+                if name not in EXC_TAG or self.exc not in (None, name):
+                    raise Untranslatable(f"{who}: raise {ast.unparse(exc) if exc else ''}")
+                self.exc = name
+                guards.append(self.cond(st.test))
+            elif isinstance(st, ast.Assign) and len(st.targets) == 1 and isinstance(st.targets[0], ast.Name):
+                nm = st.targets[0].id
+                if self.is_int_expr(st.value):
+                    lines.append(f"  let {_ident(nm)} : Int := {self.par(self.itr(st.value), P_NONE)}")
+                    self.intlocals.add(nm)
+                    self.locals.discard(nm)
+                else:
+                    lines.append(f"  let {_ident(nm)} : K := {self.par(self.tr(st.value), P_NONE)}")
+                    self.locals.add(nm)
+                    self.intlocals.discard(nm)
+            elif isinstance(st, ast.If) and st.orelse:
+                def branch(b):
+                    b = _strip_doc(b)
+                    if not (len(b) == 1 and isinstance(b[0], ast.Assign) and len(b[0].targets) == 1
+                            and isinstance(b[0].targets[0], ast.Name)):
+                        raise Untranslatable(f"{who}: branch is not a single assignment ({_where(st)})")
+                    return b[0].targets[0].id, self.par(self.tr(b[0].value), P_NONE)
+                n1, e1 = branch(st.body)
+                n2, e2 = branch(st.orelse)
+                if n1 != n2:
+                    raise Untranslatable(f"{who}: branches assign different names ({_where(st)})")
+                test = f"{self.par(self.itr(st.test), P_ADD)} ≠ 0"      # truthiness of a Python integer
+                lines.append(f"  let {_ident(n1)} : K ← (if {test} then (do\n      pure ({e1}))\n    else (do\n      pure ({e2})) : Option K)")
+                self.locals.add(n1)
+                self.intlocals.discard(n1)
+            elif isinstance(st, ast.Return) and st.value is not None:
+                lines.append(f"  pure ({self.par(self.tr(st.value), P_NONE)})")
+                returned = True
+            else:
+                raise Untranslatable(f"{who}: statement {ast.unparse(st)[:80]!r} ({_where(st)})")
+        if not returned:
+            raise Untranslatable(f"{who}: no return")
+        return lines, guards
+
+
 def render_value(items, indent="  "):
     lines = []
     for it in items:
@@ -579,6 +706,17 @@ class Module:
         for m in wanted:
             visit(m)
         c.order = done
+        # static helpers (find_parameter): every one must be carried
+        for m, fn in c.methods.items():
+            if any(ast.unparse(d) == "staticmethod" for d in fn.decorator_list):
+                if m in c.out:
+                    raise Untranslatable(f"{c.name}.{m}: static method among the primary methods")
+                stt = StaticTranslator(self, c, fn)
+                lines, guards = stt.run_static()
+                c.static[m] = dict(params=[(_ident(p), k) for p, k in stt.kinds.items()], lines=lines, guards=guards,
+                                   exc=stt.exc, doc=(ast.get_docstring(fn) or "").strip().splitlines()[0:1])
+            elif any(ast.unparse(d) == "classmethod" for d in fn.decorator_list):
+                raise Untranslatable(f"{c.name}.{m}: classmethod")
 
     def parse_init(self, c: ClassInfo):
         init = c.methods.get("__init__")
@@ -688,6 +826,7 @@ class Module:
                 scalar=[m for m in c.order if c.out[m]["scalar"] is not None],
                 raises={m: EXC_TAG[c.out[m]["exc"]] for m in c.order if c.out[m]["raises"] is not None},
                 ends={k: (ast.unparse(v) if isinstance(v, ast.AST) else v) for k, v in c.ends.items()},
+                static={m: dict(params=o["params"], exc=(EXC_TAG[o["exc"]] if o["exc"] else None)) for m, o in c.static.items()},
             )
         return d
 
@@ -719,6 +858,58 @@ class Module:
                          + f" :\n    Decidable ({lname}_raises " + " ".join((["f" if c.is_base else "t"] if selfb else [])
                                                                            + ([f"{o['params'][0]}_size"] if size else []) + o["params"])
                          + f") := by\n  unfold {lname}_raises; exact inferInstance\n")
+
+
+    def end_text(self, c: ClassInfo, node):
+        """One end of `_domain` / `_codomain` as an `ExtVal K`."""
+        sg = _is_np_inf(node)
+        if sg is not None:
+            return "ExtVal.posInf" if sg > 0 else "ExtVal.negInf"
+        mt = MethodTranslator(self, c, c.methods["__init__"], "array")
+        orig = mt.tr
+
+        def tr(n, c=c, orig=orig):
+            if isinstance(n, ast.Name) and n.id in c.arg2field and c.arg2field[n.id][1] == "K":
+                return f"t.{c.arg2field[n.id][0]}", P_ATOM
+            return orig(n)
+        mt.tr = tr
+        return f"ExtVal.fin {mt.atom(node)}"
+
+    def emit_intervals(self, c: ClassInfo, P: list):
+        """`domainExt` / `codomainExt`: the two intervals with their infinite ends (`ExtVal K`)."""
+        wraps = [p for p in c.params if c.arg2field[p][1] == "Ops"]
+        for key in ("domain", "codomain"):
+            if key + "_lo" in c.ends:
+                lo, hi = c.ends[key + "_lo"], c.ends[key + "_hi"]
+                text = f"({self.end_text(c, lo)}, {self.end_text(c, hi)})"
+                bind = f"(t : {c.name} K)" if "t." in text else f"(_t : {c.name} K)"
+                P.append(f"/-- `self._{key} = ({ast.unparse(lo)}, {ast.unparse(hi)})`, infinite ends included. -/")
+                P.append(f"def {key}Ext {bind} : ExtVal K × ExtVal K := {text}\n")
+            elif key in c.ends:
+                # taken over from the wrapped transform: `transform.codomain` / `transform.domain`
+                src = c.ends[key]
+                ok = len(wraps) == 1 and src in (f"{wraps[0]}.domain", f"{wraps[0]}.codomain")
+                if not ok:
+                    raise Untranslatable(f"{c.name}.__init__: self._{key} = {src!r}")
+                which = "tfm_domain" if src.endswith(".domain") else "tfm_codomain"
+                P.append(f"/-- `self._{key} = {src}`: one of the two intervals of the wrapped transform. -/")
+                P.append(f"def {key}Ext {{D : Type}} (tfm_domain tfm_codomain : D) : D := {which}\n")
+            else:
+                raise Untranslatable(f"{c.name}.__init__ does not set self._{key}")
+
+    def emit_static(self, c: ClassInfo, m: str, P: list):
+        o = c.static[m]
+        lname = _ident(m)
+        binds = " ".join(f"({p} : {'List K' if k == 'array' else 'K'})" for p, k in o["params"])
+        names = " ".join(p for p, _ in o["params"])
+        doc = f" — {o['doc'][0]}".replace("-/", "- /") if o["doc"] else ""
+        P.append(f"/-- `{c.name}.{m}` (static){doc}  `none` = `IndexError`. -/")
+        P.append(f"def {lname} {binds} : Option K := do\n" + "\n".join(o["lines"]) + "\n")
+        if o["guards"]:
+            P.append(f"/-- `{c.name}.{m}` raises `{o['exc']}` (checked before anything else). -/")
+            P.append(f"def {lname}_raises {binds} : Prop :=\n  " + " ∨ ".join(o["guards"]) + "\n")
+            P.append(f"instance [DecidableLT K] [DecidableLE K] {binds} :\n    Decidable ({lname}_raises {names}) := by\n"
+                     f"  unfold {lname}_raises; exact inferInstance\n")
 
     def render(self, source="src/grid/rtransform.py") -> str:
         P = [HEADER.format(name="rtransform", source=source)]
@@ -770,11 +961,11 @@ class Module:
                 text = mt.par(mt.tr(node), P_NONE)
                 bind = f"(t : {c.name} K)" if "t." in text else f"(_t : {c.name} K)"
                 P.append(f"/-- `{key}`: `{ast.unparse(node)}`. -/\ndef {key} {bind} : K := {text}\n")
-            for key in ("domain", "codomain"):
-                if key in c.ends:
-                    P.append(f"-- `{key}` of `{c.name}` is `{c.ends[key]}`\n")
+            self.emit_intervals(c, P)
             for m in c.order:
                 self.emit_method(c, m, P)
+            for m in c.static:
+                self.emit_static(c, m, P)
             P.append("/-- The transform object as a record of its five methods. -/")
             P.append(f"def ops (t : {c.name} K) : BaseTransform K :=\n  {{ "
                      + ", ".join(f"{m} := {'t.' + m if c.out[m]['uses_self'] else m}" for m in PRIMARY) + " }\n")
@@ -839,6 +1030,37 @@ class Module:
             for m in c.order:
                 if c.out[m]["raises"] is not None:
                     L.append(f"  | \"{c.name}\", \"{m}\" => some \"{EXC_TAG[c.out[m]['exc']]}\"")
+        L.append("  | _, _ => none\n")
+        for key in ("domain", "codomain"):
+            L.append(f"/-- `{key}` of the class `cls` with parameters `ps` (ends as `ExtVal`). -/")
+            L.append(f"def {key}Of (cls : String) (ps : List K) (trim : Bool) : Option (ExtVal K × ExtVal K) :=\n  match cls, ps with")
+            for c in plain:
+                ks, bs, _ = build(c)
+                L.append(f"  | \"{c.name}\", [{', '.join(ks)}] => some ({c.name}.{key}Ext {struct(c, ks, bs)})")
+            L.append("  | _, _ => none\n")
+        L.append("/-- Static helpers by name: `array` is the array argument, `ps` the scalar arguments in order. -/")
+        L.append("def staticOf (cls meth : String) (array : List K) (ps : List K) : Option (Option K) :=\n  match cls, meth, ps with")
+        for c in self.transforms:
+            for m, o in c.static.items():
+                sc = [p for p, k in o["params"] if k == "K"]
+                args = " ".join("array" if k == "array" else p for p, k in o["params"])
+                L.append(f"  | \"{c.name}\", \"{m}\", [{', '.join(sc)}] => some ({c.name}.{_ident(m)} {args})")
+        L.append("  | _, _, _ => none\n")
+        L.append("def staticRaisesOf [DecidableLT K] [DecidableLE K] (cls meth : String) (array : List K) (ps : List K) :\n"
+                 "    Option Bool :=\n  match cls, meth, ps with")
+        for c in self.transforms:
+            for m, o in c.static.items():
+                if not o["guards"]:
+                    continue
+                sc = [p for p, k in o["params"] if k == "K"]
+                args = " ".join("array" if k == "array" else p for p, k in o["params"])
+                L.append(f"  | \"{c.name}\", \"{m}\", [{', '.join(sc)}] => some (decide ({c.name}.{_ident(m)}_raises {args}))")
+        L.append("  | _, _, _ => none\n")
+        L.append("def staticRaisesKindOf (cls meth : String) : Option String :=\n  match cls, meth with")
+        for c in self.transforms:
+            for m, o in c.static.items():
+                if o["guards"]:
+                    L.append(f"  | \"{c.name}\", \"{m}\" => some \"{EXC_TAG[o['exc']]}\"")
         L.append("  | _, _ => none\n")
         # methods on a transform object
         b = self.base
